@@ -1,5 +1,6 @@
 import Norad.Props.C08
 import Norad.Props.C13
+import Norad.Props.C15
 /-!
 # C08 ∘ C13 — "invalid font info" in the specification's sense is refused before the target is touched
 
@@ -37,5 +38,19 @@ theorem valid_info_is_serialisable (i : C13.Info) (a : AInfo) (hf : FlagsOf i a)
     a.serialisable = true := by
   have hr := (C13.validate_iff_rules i).1 (hf.valid.1 hv)
   exact hf.serialisable.2 ((C13.serializeInfo_spec i).2.2 hr.angles)
+
+
+/-! ### the same glue for kerning groups (C15) -/
+
+/-- **the third refusal kind at full strength**: when the abstract flag is what `validate_groups` says of
+    the groups `g`, groups in which a glyph belongs to two first-side or two second-side kerning groups, or
+    with a kerning-group name that is only the prefix, are refused with the file system exactly as it was -/
+theorem refused_save_leaves_fs_groups_spec (cfg : Cfg β) (f : AFont β) (fs : FS β) (t : APath)
+    (g : Kern.Groups) (hf : f.groupsValid = true ↔ Kern.validateGroups g = .ok ())
+    (hbad : ¬ KernSpec.ValidGroups g) : ∃ k, saveImpl cfg f fs t = (some (.refused k), fs) := by
+  apply refused_save_leaves_fs_groups
+  cases hv : f.groupsValid with
+  | false => rfl
+  | true => exact absurd ((Kern.validate_iff g).1 (hf.1 hv)) hbad
 
 end C08
